@@ -271,7 +271,23 @@ func slidingExact(seq []string, ref c01Ref) (bad int, msg string) {
 }
 
 func c01Seq(c *Ctx) {
+	hung := false
 	c.Cases("pool", c.N(2000, 60000), func(i int, r *rand.Rand) {
+		if hung {
+			return // the first blocked call has been reported; nothing in this process can be trusted to return any more
+		}
+		// nothing in a case can block except a call into the balancer (no sockets, no channels): a case that does not come
+		// back within a minute is a balancer call that never returned (milliseconds are typical)
+		if !c.Guard(60*time.Second, func() { c01SeqCase(c, i, r) }) {
+			hung = true
+			c.Violation("hang", "a call into the balancer (pool change or selection) did not return within 60s: the balancer is blocked, typically a lock that was not released on some path", map[string]any{"case": i})
+		}
+	})
+	c.Require("pools_nontrivial", 2)
+}
+
+func c01SeqCase(c *Ctx, i int, r *rand.Rand) {
+	{
 		weights := c01Weights(r)
 		if i == 0 {
 			weights = []int{3, 0, 6, 1}
@@ -413,12 +429,25 @@ func c01Seq(c *Ctx) {
 		if i < 3 {
 			c.Sample(map[string]any{"weights": ws, "W": ref.W, "prior_history": hist, "via_http": viaHTTP, "first_selections": seq[:min(len(seq), 12)]})
 		}
-	})
-	c.Require("pools_nontrivial", 2)
+	}
 }
 
 func c01Conc(c *Ctx) {
+	hung := false
 	c.Cases("conc", c.N(300, 5000), func(i int, r *rand.Rand) {
+		if hung {
+			return
+		}
+		if !c.Guard(120*time.Second, func() { c01ConcCase(c, i, r) }) {
+			hung = true
+			c.Violation("hang", "a call into the balancer (pool change or selection) did not return: the balancer is blocked, typically a lock that was not released on some path", map[string]any{"case": i})
+		}
+	})
+	c.Require("conc_nontrivial", 2)
+}
+
+func c01ConcCase(c *Ctx, i int, r *rand.Rand) {
+	{
 		weights := c01Weights(r)
 		viaServe := r.IntN(2) == 0 // selections made by the HTTP handler path or by NextServer()
 		rr, urls, hist, err := c01Build(r, http.HandlerFunc(func(w http.ResponseWriter, req *http.Request) { w.Header().Set("X-Routed", urlKey(req.URL)) }), weights, r.IntN(6))
@@ -508,12 +537,25 @@ func c01Conc(c *Ctx) {
 		if i < 2 {
 			c.Sample(map[string]any{"weights": ws, "goroutines": P, "K": K, "combined_counts": sum})
 		}
-	})
-	c.Require("conc_nontrivial", 2)
+	}
 }
 
 func c01Lin(c *Ctx) {
+	hung := false
 	c.Cases("lin", c.N(200, 3000), func(i int, r *rand.Rand) {
+		if hung {
+			return
+		}
+		if !c.Guard(300*time.Second, func() { c01LinCase(c, i, r) }) { // (includes the linearizability search, capped at 2 minutes)
+			hung = true
+			c.Violation("hang", "a call into the balancer (pool change or selection) did not return: the balancer is blocked, typically a lock that was not released on some path", map[string]any{"case": i})
+		}
+	})
+	c.Require("lin_nontrivial", 2)
+}
+
+func c01LinCase(c *Ctx, i int, r *rand.Rand) {
+	{
 		weights := c01Weights(r)
 		for k := range weights {
 			if weights[k] > 40 {
@@ -610,6 +652,5 @@ func c01Lin(c *Ctx) {
 				c.Count("lin_nontrivial", 1)
 			}
 		}
-	})
-	c.Require("lin_nontrivial", 2)
+	}
 }
